@@ -17,7 +17,7 @@ NAN = float("nan")
 CLASSES = [20.0, 10.0, 30.0]
 
 
-def make_recording_classifier(npm):
+def make_recording_classifier(npm, nan_proba=False):
     from sklearn.base import BaseEstimator, ClassifierMixin
 
     class RecClf(ClassifierMixin, BaseEstimator):
@@ -32,6 +32,10 @@ def make_recording_classifier(npm):
             return self
 
         def predict_proba(self, X):
+            if nan_proba:
+                # an estimator whose probabilities are undefined (e.g. GaussianNB after a single sample): the wrapper
+                # then answers with its label statistics
+                return npm.full((len(X), len(self.classes_)), float("nan"))
             raise NotImplementedError
     return RecClf()
 
@@ -247,7 +251,7 @@ def sc_partial_stream(d, kind, n1, n2):
     import skactiveml.regressor as R
     clf = kind == "classifier"
     if clf:
-        w = SklearnClassifier(make_recording_classifier(d.np), classes=CLASSES[:2])
+        w = SklearnClassifier(make_recording_classifier(d.np, nan_proba=True), classes=CLASSES[:2])
     else:
         w = (R.SklearnNormalRegressor if kind == "normal_regressor" else R.SklearnRegressor)(make_recording_regressor(d.np))
     x1, X1, yv1, y1, _, _, lab1 = _data_named(d, "a", n1, clf)
@@ -262,6 +266,8 @@ def sc_partial_stream(d, kind, n1, n2):
     est = w.estimator_
     log1 = list(getattr(est, "fit_log_", []))
     d.prove(len(log1) == 1, "first_batch_reaches_the_estimator")
+    Xq = d.arr([[0.0]], shape=(1, 1))
+    p_before = w.predict_proba(Xq) if clf else None
     try:
         w.partial_fit(X2, y2)
     except (core.Unencodable, core.PathAbort):
@@ -273,6 +279,7 @@ def sc_partial_stream(d, kind, n1, n2):
     d.prove(len(getattr(w.estimator_, "fit_log_", [])) == 1, "unlabeled_batch_does_not_reach_the_estimator")
     if clf:
         d.prove(getattr(w, "is_fitted_", None) is True, "unlabeled_batch_does_not_unfit_the_wrapper")
+        d.prove(d.eq_arr(w.predict_proba(Xq), p_before, 1e-12), "unlabeled_batch_leaves_the_probabilities_unchanged")
     w.partial_fit(X3, y3)
     d.prove(w.estimator_ is est, "partial_fit_continues_the_same_estimator")
     log = getattr(w.estimator_, "fit_log_", [])
